@@ -21,11 +21,17 @@ package main
 //   typing:entry                       the entry rule's predicate implies what
 //       grammar.Parse's (trusted) contract promises about an accepted input.
 //
-// What stays assumed (A-ENGINE, narrowed): the engine passes values as PEG
-// semantics says (sequence -> []any of its parts, label -> value of its
-// sub-expression, * and + -> []any, ? -> value or nil, predicates -> nil,
-// matchers -> []byte, c.text = matched input), a nil error from Parse means no
-// action returned an error, and nodes are never written after the action that
+// known() below is the clause-by-clause image of the spec function `yields`
+// (spec/27-peg.smt2) on the table as read from grammar.go; the engine methods
+// of grammar.go are verified by WP against `yields` (sequence -> []any of the
+// values of its parts in order, * and + -> []any of values of the
+// sub-expression, ? -> value or nil, label and rule reference -> the
+// sub-value, choice -> the value of one alternative, predicates -> nil,
+// matchers -> []byte, a failed match -> nil). What stays assumed (A-ENGINE,
+// narrowed): a label's value reaches the action parameter of that name (the
+// vstack maps and the generated trampolines), p.rules maps a rule name to that
+// rule, c.text is the matched input, a nil error from Parse means no action
+// returned an error, and nodes are never written after the action that
 // allocated them returned (every action is `assigns nothing`, frame-checked) -
 // so a predicate established when a value was produced still holds at the
 // end. A-ACYCLIC: wfS (shape) of a tree built bottom-up from fresh nodes
